@@ -97,8 +97,9 @@ def check(ctx, src):
     init = mod.func("REPL.__init__")
     sy = [n for n in ast.walk(init) if isinstance(n, ast.Assign) and any(_is_self_attr(t, "_repl_results_symbols") for t in n.targets)] if init else []
     ctx.need(len(sy) == 1, "REPL.__init__ no longer defines _repl_results_symbols")
-    ctx.check(norm(sy[0].value) == "[mangle('*{}'.format(i + 1)) for i in range(3)]", "REPL-SHIFT", f"{REL}|REPL.__init__|symbols",
-              f"result symbols are `{norm(sy[0].value)}`", REL, sy[0].lineno, detail="*1,*2,*3 ascending, mangled")
+    val = _static(sy[0].value)
+    ctx.decide("REPL-SHIFT", f"{REL}|REPL.__init__|symbols", None if val is None else val == [("mangle", "*1"), ("mangle", "*2"), ("mangle", "*3")],
+               f"result symbols are `{norm(sy[0].value)}` = {val}", REL, sy[0].lineno, detail="*1,*2,*3 ascending, mangled")
 
     # --- freshness ------------------------------------------------------------------------------
     # guards on the path to the shift
@@ -216,20 +217,27 @@ def check_cont(ctx, src, mod=None):
     # --- continuation routing ----------------------------------------------------------------------
     hc = mod.func("HyCompile.__call__")
     ctx.require(hc is not None, "HyCompile.__call__ not found")
+    # how does a PrematureEndOfInput raised in the try body leave?  The first handler whose type covers it decides: it must
+    # reach a bare `raise` under conditions that hold for a PrematureEndOfInput
     handler = None
     for t in pyq.walk_no_nested(hc):
-        if isinstance(t, ast.Try):
+        if isinstance(t, ast.Try) and any(dotted(c.func) == "read_many" for c in pyq.calls(t) if any(c is x for b in t.body for x in ast.walk(b))):
             for h in t.handlers:
-                if h.type is not None and norm(h.type) in ("Exception", "BaseException"):
+                names = [dotted(e) for e in (h.type.elts if isinstance(h.type, ast.Tuple) else [h.type])] if h.type is not None else ["BaseException"]
+                if any(n in PEOI_SUPERS or n == "BaseException" for n in names):
                     handler = h
-    ctx.need(handler is not None, "HyCompile.__call__ no longer has its `except Exception` conversion handler")
-    rer = None
-    for st in handler.body:
-        if isinstance(st, ast.If) and _covers_peoi(st.test, handler.name) and st.body and isinstance(st.body[0], ast.Raise) and st.body[0].exc is None:
-            rer = st
-    ctx.check(rer is not None, "REPL-CONT", f"{REL}|HyCompile.__call__|reraise", "PrematureEndOfInput is not re-raised unchanged by HyCompile.__call__ "
-              "(it would be converted into code that raises at run time, and the REPL would never ask for more input)", REL, handler.lineno,
-              witness="typing `(+ 1` prints a traceback instead of the continuation prompt", detail=norm(rer.test) if rer else "")
+                    break
+    ctx.need(handler is not None, "HyCompile.__call__: no handler around read_many covers PrematureEndOfInput")
+    bare = [r for r in ast.walk(handler) if isinstance(r, ast.Raise) and r.exc is None]
+    verdict = False if not bare else None
+    for r in bare:
+        gs = [(t_, pol) for t_, pol in pyq.guards(r, handler)]
+        if all(pol and _covers_peoi(t_, handler.name) for t_, pol in gs):
+            verdict = True
+    rer = bare[0] if bare else None
+    ctx.decide("REPL-CONT", f"{REL}|HyCompile.__call__|reraise", verdict, "PrematureEndOfInput is not re-raised unchanged by HyCompile.__call__ "
+               "(it would be converted into code that raises at run time, and the REPL would never ask for more input)", REL, handler.lineno,
+               witness="typing `(+ 1` prints a traceback instead of the continuation prompt", detail="bare raise for PrematureEndOfInput")
     # read_many is inside that try
     rm = [c for c in pyq.calls(hc) if dotted(c.func) == "read_many"]
     ctx.check(len(rm) == 1 and any(part == "body" for _, part in pyq.enclosing_try_parts(rm[0])), "REPL-CONT", f"{REL}|HyCompile.__call__|read-in-try",
@@ -249,6 +257,62 @@ def check_cont(ctx, src, mod=None):
               witness="the REPL reports an error for `(+ 1` instead of prompting `... `", detail="except PrematureEndOfInput: if not allow_incomplete: raise")
     sup = pyq.contains(cc, lambda n: isinstance(n, ast.Return) and isinstance(n.value, ast.Call) and "super().__call__" in norm(n.value))
     ctx.check(sup is not None, "REPL-CONT", f"{REL}|HyCommandCompiler.__call__|delegates", "does not return super().__call__(...)", REL, cc.lineno, detail="returns super().__call__")
+
+
+def _static(e, env=None):
+    """Value of a small constant expression (comprehension over a literal range, string formatting); mangle(x) is kept
+    symbolic as ("mangle", x).  None when it is not of that kind."""
+    env = env or {}
+    try:
+        if isinstance(e, ast.Constant):
+            return e.value
+        if isinstance(e, ast.Name):
+            return env[e.id]
+        if isinstance(e, (ast.Tuple, ast.List)):
+            return [_static(x, env) for x in e.elts]
+        if isinstance(e, ast.BinOp) and isinstance(e.op, (ast.Add, ast.Sub, ast.Mod)):
+            a, b = _static(e.left, env), _static(e.right, env)
+            if a is None or b is None:
+                return None
+            return a + b if isinstance(e.op, ast.Add) else (a - b if isinstance(e.op, ast.Sub) else a % (tuple(b) if isinstance(b, list) else b))
+        if isinstance(e, ast.JoinedStr):
+            out = ""
+            for v in e.values:
+                if isinstance(v, ast.Constant):
+                    out += v.value
+                elif isinstance(v, ast.FormattedValue) and v.format_spec is None and v.conversion == -1:
+                    x = _static(v.value, env)
+                    if x is None:
+                        return None
+                    out += str(x)
+                else:
+                    return None
+            return out
+        if isinstance(e, ast.Call):
+            d = dotted(e.func)
+            if d == "mangle" and len(e.args) == 1:
+                x = _static(e.args[0], env)
+                return None if x is None else ("mangle", x)
+            if d == "range" and 1 <= len(e.args) <= 2:
+                a = [_static(x, env) for x in e.args]
+                return None if None in a else list(range(*a))
+            if d == "str" and len(e.args) == 1:
+                x = _static(e.args[0], env)
+                return None if x is None else str(x)
+            if isinstance(e.func, ast.Attribute) and e.func.attr == "format" and not e.keywords:
+                f_ = _static(e.func.value, env)
+                a = [_static(x, env) for x in e.args]
+                return None if f_ is None or None in a else f_.format(*a)
+            return None
+        if isinstance(e, ast.ListComp) and len(e.generators) == 1 and not e.generators[0].ifs and isinstance(e.generators[0].target, ast.Name):
+            it = _static(e.generators[0].iter, env)
+            if it is None:
+                return None
+            out = [_static(e.elt, {**env, e.generators[0].target.id: x}) for x in it]
+            return None if any(o is None for o in out) else out
+    except Exception:
+        return None
+    return None
 
 
 PEOI_SUPERS = {"PrematureEndOfInput", "LexException", "HySyntaxError", "HyLanguageError", "HyError", "SyntaxError", "Exception"}
